@@ -1510,8 +1510,12 @@ func defaultInline(f *ssa.Function) bool {
 	if knownFuncs == nil || f.Pkg == nil || f.Parent() != nil || !strings.HasPrefix(f.Pkg.Pkg.Path(), modPath) {
 		return false
 	}
-	return !knownFuncs[funcKey(f)]
+	return !knownFuncs[normRecv(funcKey(f))]
 }
+
+// normRecv: a method is the same vocabulary entry whether its receiver is a
+// pointer or a value.
+func normRecv(k string) string { return strings.Replace(k, "(*", "(", 1) }
 
 func (p *purity) compute(f *ssa.Function) bool {
 	pkg := ""
